@@ -10,7 +10,13 @@ LOOP_LABELS = ["unreg_due_victim_in_callback", "unreg_self_in_callback", "handle
                "three_or_more_callbacks_in_one_iteration", "budget_cleanup", "epoll_pwait2_fallback", "task_self_rereg", "handlerless_fd",
                "equal_expiry", "unreg_pending_timer_in_callback", "level_triggered_repeat", "method_epoll_timerfd", "method_epoll", "method_ppoll",
                "method_poll", "free_in_oneshot_handler", "event_register_failure", "raw_post_inside_own_handler", "far_timer_clamp",
-               "timerfd_enosys_fallback", "ppoll_enosys_fallback"]
+               "timerfd_enosys_fallback", "ppoll_enosys_fallback", "raw_burst_gt_1000", "raw_post_from_signal_handler", "raw_post_from_forked_child",
+               "raw_pipe_transport", "raw_old_eventfd_transport", "raw_burst_multiple_of_1024"]
+
+_COMMON_NOTE = ("trusted: the harness' shadow model and oracles (harness/t_loop.c), the link-time interposition layer (harness/vk.c), the running "
+                "kernel's poll/epoll semantics, clang ASan/UBSan. Generated-input search never establishes absence: the claim is 'no violation in "
+                "the explored cases', with the case counts and label distribution recorded in the evidence file.")
+_TECH = "property-based testing: seeded generated loop programs (online choice-sequence decoding) against the real library under ASan/UBSan with a virtual kernel; shadow-model oracle; choice-sequence shrinking to a replay file"
 
 # Each campaign: target, params, quick count, thorough count
 PROPS = {
@@ -137,6 +143,13 @@ PROPS["C13"] = dict(
     assumptions=["same scheduler granularity as C08", "thread exit is observed through a harness TLS destructor that lets the library's own destructors run under the schedule first"],
     level_text="exploration of generated release / thread-exit timings under generated schedules",
     level_note=_MT_NOTE, technique=_MT_TECH, design_ref="DESIGN.md sections 2.3 and 3 (C13)")
+PROPS["C09"] = dict(
+    level="exploration", labels=LOOP_LABELS, engine="loop",
+    campaigns=[("loop", ["profile=raw"], 60000, 1200000), ("mt", ["profile=event"], 25000, 500000)],
+    rule="cases = (a) single-threaded loop programs centred on iv_event_raw: posts from the owner thread, from inside the object's own handler, from a signal handler, from a forked child, bursts of 1..70000 posts (incl. exact multiples of 1024 and more than a 64 KiB pipe holds) with the loop not running, transports eventfd2 / old eventfd / pipe (creation calls made to fail); (b) multi-threaded programs (engine B) with posts from other threads under generated schedules; oracles: the loop may not block (and all threads may not park) while a registered raw event has a post that is not followed by a handler run; handler only while registered and in the owner thread; every write issued by a post must go to a non-blocking descriptor (else: would it block right now? -> post-would-block); non-trivial = a post from inside the own handler, from a signal handler, from a forked child, a burst > 1000 on the pipe transport, or (b) a cross-thread post; distinct = hash of executed actions",
+    assumptions=["signal-handler posts are raised synchronously at generated points of the program (not between arbitrary instructions)"],
+    level_text="exploration of generated post/handler/unregister programs over the three transports, four poster contexts and large bursts; blocking posts are detected at the write boundary instead of by hanging",
+    level_note=_COMMON_NOTE, technique=_TECH, design_ref="DESIGN.md section 3 (C09)")
 
 ENGINES = [
     dict(name="vfz", path="harness/vfz.c", serves_properties=["C01", "C02", "C03", "C04", "C06", "C07"],
@@ -153,10 +166,6 @@ ENGINES.append(dict(name="vsched", path="harness/vsched.c", serves_properties=["
 ENGINES.append(dict(name="mt", path="harness/t_mt.c", serves_properties=["C08", "C12", "C13"], kind_free_text="multi-threaded scenario programs: owners, posters, work pool, iv_thread children"))
 NOT_APPLICABLE = {}
 
-_COMMON_NOTE = ("trusted: the harness' shadow model and oracles (harness/t_loop.c), the link-time interposition layer (harness/vk.c), the running "
-                "kernel's poll/epoll semantics, clang ASan/UBSan. Generated-input search never establishes absence: the claim is 'no violation in "
-                "the explored cases', with the case counts and label distribution recorded in the evidence file.")
-_TECH = "property-based testing: seeded generated loop programs (online choice-sequence decoding) against the real library under ASan/UBSan with a virtual kernel; shadow-model oracle; choice-sequence shrinking to a replay file"
 for _pid, _txt in {
     "C01": "exploration of generated register/unregister/free histories over 5 object kinds and 4 poll methods; stale-cookie oracle + AddressSanitizer on objects freed at unregister return",
     "C02": "exploration of generated fd histories with poll(2) ground truth at every wait; the loop may not block while a wanted band is ready and may not starve it over two polls",
